@@ -214,3 +214,9 @@ package octosql
 // TypeSum(t, NULL) admits NULL (the part of the upper-bound law that typing of strict functions relies on, C08).
 //@ func TypeSum
 //@   ensures nullsum: validT(t1) && validT(t2) && t2.TypeID == 0 ==> t2.Is(t2) == 2 && t2.Is(result) == 2
+
+// Type.Equals is used as a black box where only "the same answer for the same types" matters (C26): teq names what it computes.
+//@ spec teq(t Type, other Type) bool
+//@ func Type.Equals
+//@   pure
+//@   defines result == teq(t, other)
